@@ -143,7 +143,8 @@ ObsGot(m, e) ==
               q0 == IF msgApi /\ m.inq[1].k = "frag" /\ Len(m.inq) > 1 THEN Tail(m.inq) ELSE m.inq
               p == q0[1]
               pk == IF p.k \in {"closeValid", "closeEmpty", "closeInvalid"} THEN "close"
-                    ELSE IF p.k = "cont" /\ msgApi THEN "data" ELSE p.k
+                    ELSE IF p.k = "cont" /\ msgApi THEN "data"
+                    ELSE IF p.k = "big" THEN "data" ELSE p.k
               m1 == [m EXCEPT !.inq = Tail(q0)]
           IN
           IF pk # e.k \/ (e.k \in {"data", "ping", "pong", "cont"} /\ p.t # e.t) THEN Fail(m, "C08/rx-mismatch/" \o pk, m)
@@ -181,7 +182,12 @@ ObsWire(m, e) ==
     LET acc == [m EXCEPT !.closes = 1, !.cwhy = IF @ = "local?" THEN "local" ELSE @] IN
     IF m.closes >= 1 THEN
       Fail(m, "C08/second-close/" \o (IF m.vafter THEN "after-violation" ELSE m.stage), m)
-    ELSE IF m.ccode = -1 THEN Fail(m, "C08/close-unsolicited", acc)
+    ELSE IF m.ccode = -1 THEN
+      \* the blocking message read that refuses an over-sized message writes its Close before it returns
+      IF e.c = 1001 /\ m.stage = "active" /\ (\E j \in DOMAIN m.inq : m.inq[j].k = "big")
+         /\ (\E j \in DOMAIN m.ops : m.ops[j].done = 0 /\ m.ops[j].api \in ReadApis \ FrameApis)
+        THEN [acc EXCEPT !.ccode = 1001, !.cwhy = "violation"]
+        ELSE Fail(m, "C08/close-unsolicited", acc)
     ELSE IF e.c # m.ccode THEN Fail(m, "C08/close-code/" \o m.cwhy, acc)
     ELSE acc
   ELSE IF e.k = "data" THEN WireData(m, e)
@@ -221,6 +227,16 @@ ObsDone(m, e) ==
            ELSE IF m.stage = "active"
              THEN [m1 EXCEPT !.inq = Tail(@), !.stage = "closedByUs",
                              !.ccode = IF m.ccode = -1 \/ m.cwhy = "local?" THEN 1002 ELSE @,
+                             !.cwhy = "violation"]
+             ELSE [m1 EXCEPT !.inq = Tail(@), !.vafter = TRUE]
+      \* a message that does not fit the reader's buffer (peer event "big"): refused by the message-level reads,
+      \* which start the closing handshake (1001) - unless one is under way: then nothing more is sent
+      [] e.err = "toobig" ->
+           IF ~CanRead(m) THEN Fail(m, "C08/read-after-close/" \o m.stage, m1)
+           ELSE IF m.inq = <<>> \/ m.inq[1].k # "big" \/ op.api \in FrameApis THEN Fail(m, "C08/rx-mismatch/toobig", m1)
+           ELSE IF m.stage = "active"
+             THEN [m1 EXCEPT !.inq = Tail(@), !.stage = "closedByUs",
+                             !.ccode = IF m.ccode = -1 \/ m.cwhy = "local?" THEN 1001 ELSE @,
                              !.cwhy = "violation"]
              ELSE [m1 EXCEPT !.inq = Tail(@), !.vafter = TRUE]
       [] e.err = "terr" ->
